@@ -246,9 +246,10 @@ def check_realp(ctx, it, f_rp):
 
 # =========================================================================================== D4
 PURE_NP = {"zeros", "empty", "zeros_like", "empty_like", "hstack", "vstack", "concatenate", "column_stack", "array",
-           "asarray", "copy", "eye", "negative", "transpose", "reshape", "stack"}
+           "asarray", "copy", "eye", "negative", "transpose", "reshape", "stack", "arange", "block", "split", "hsplit", "vsplit",
+           "take", "swapaxes", "moveaxis", "ascontiguousarray", "where"}
 PURE_METHODS = {"copy", "astype", "reshape", "transpose"}
-PURE_BUILTINS = {"int", "float", "len", "tuple", "list", "range", "min", "max"}
+PURE_BUILTINS = {"int", "float", "len", "tuple", "list", "range", "min", "max", "slice", "zip", "enumerate", "reversed", "bool"}
 
 
 def _np_aliases(fi):
@@ -260,8 +261,9 @@ def _is_movement(node, np_names):
     for n in ast.walk(node):
         if isinstance(n, ast.BinOp) and isinstance(n.op, (ast.MatMult, ast.Pow)):
             return False
-        if isinstance(n, (ast.Lambda, ast.ListComp, ast.GeneratorExp, ast.SetComp, ast.DictComp, ast.IfExp, ast.BoolOp,
-                          ast.Compare, ast.NamedExpr, ast.Await, ast.Yield, ast.YieldFrom)):
+        # (comprehensions, conditional expressions and comparisons over loop constants only select / place blocks; a condition on
+        #  array DATA cannot be evaluated on the havoc'ed state and makes the run an analysis error, never a pass)
+        if isinstance(n, (ast.Lambda, ast.SetComp, ast.DictComp, ast.NamedExpr, ast.Await, ast.Yield, ast.YieldFrom)):
             return False
         if isinstance(n, ast.Call):
             f = n.func
